@@ -439,3 +439,45 @@ package ice
 //@   requires[C06] s != nil && docNum < s.footer.numDocs
 //@   assume docNum / 128 + 1 < len(s.storedFieldChunkOffsets)
 //@   at call:ZSTDDecompress#0 assume result1 == nil ==> storedOffset + 2 <= len(result0)
+//@
+//@ // ---------------------------------------------------------------------------
+//@ // C10: frozen format (version 2). Each side is checked against these literals and spec
+//@ // functions on its own, so a symmetric change of writer and reader breaks both.
+//@ const[C10] Version == 2
+//@ const[C10] footerLen == 44
+//@ const[C10] crcWidth == 4 && verWidth == 4 && chunkWidth == 4 && fdvOffsetWidth == 8 && fieldsOffsetWidth == 8 && storedOffsetWidth == 8 && numDocsWidth == 8
+//@ const[C10] defaultDocumentChunkSize == 128
+//@ const[C10] legacyChunkMode == 1024 && chunkModeV1 == 1025 && defaultChunkMode == 1025
+//@ const[C10] maxDocsToScanSequentially == 1024
+//@ const[C10] ZSTDCompressionLevel == 3
+//@ const[C10] fieldNotUninverted == 18446744073709551615
+//@ const[C10] termNotEncoded == 0
+//@ const[C10] fSTValEncodingMask == 13835058055282163712 && fSTValEncoding1Hit == 9223372036854775808 && mask31Bits == 2147483647
+//@ const[C10] fileAddrWidth == 8
+//@ const[C10] fieldDvStartWidth == 8 && fieldDvEndWidth == 8 && fieldDvStartEndWidth == 16
+//@ const[C10] docDropped == 9223372036854775807
+//@ const[C10] numUintsLocation == 4
+//@ const[C10] sevenTimesNine == 63 && lastByte == 128 && significantBits == 127
+//@ // package-level variables that are part of the format: set at initialisation, never stored again
+//@ globalinv termSeparator == 255
+//@ globalinv sizeOfUint32 == 4
+//@
+//@ func fSTValEncode1Hit
+//@   safety[C01,C02,C10] wrap
+//@   ensures[C01,C02,C10] result0 == 9223372036854775808 + (normBits % 2147483648) * 2147483648 + docNum % 2147483648
+//@   ensures[C02,C10] is1Hit(result0)
+//@
+//@ // the reader parses the 44-byte footer from the end of the file
+//@ func parseFooter
+//@   safety[C04,C10] nil read
+//@   requires[C04,C10] data != nil
+//@   let N = dlen(data)
+//@   let B = dbytes(data)
+//@   ensures[C04,C10] result1 == nil ==> N >= 44 && result0 != nil
+//@   ensures[C04,C10,C11] result1 == nil ==> result0.crc == be32(B, N - 4)
+//@   ensures[C04,C10] result1 == nil ==> result0.version == be32(B, N - 8) && result0.version == 2
+//@   ensures[C04,C10] result1 == nil ==> result0.chunkMode == be32(B, N - 12)
+//@   ensures[C04,C10] result1 == nil ==> result0.docValueOffset == be64(B, N - 20)
+//@   ensures[C04,C10] result1 == nil ==> result0.fieldsIndexOffset == be64(B, N - 28)
+//@   ensures[C04,C10] result1 == nil ==> result0.storedIndexOffset == be64(B, N - 36)
+//@   ensures[C04,C10] result1 == nil ==> result0.numDocs == be64(B, N - 44)
